@@ -254,7 +254,7 @@ PURE_PREDS = ('big', 'zst', 'needs_drop')
 
 
 class State:
-    __slots__ = ('env', 'fenv', 'events', 'counter', 'pure', 'visits', 'blocks', 'mem', 'stack', 'body', 'depth')
+    __slots__ = ('env', 'fenv', 'events', 'counter', 'pure', 'visits', 'blocks', 'mem', 'stack', 'body', 'depth', 'decided')
 
     def __init__(self):
         self.env = {}     # local key -> value; key = n at depth 0, (n, depth) inside a spliced callee
@@ -268,6 +268,7 @@ class State:
         self.stack = []   # saved caller frames while a crate-local helper is spliced in
         self.body = None  # body of the current frame (None = the evaluator's root body)
         self.depth = 0
+        self.decided = {}  # switch discriminant value -> ('eq', v) | ('ne', frozenset(values)) already taken on this path
 
     def clone(self):
         s = State()
@@ -282,7 +283,18 @@ class State:
         s.stack = [dict(f, visits=dict(f['visits'])) for f in self.stack]
         s.body = self.body
         s.depth = self.depth
+        s.decided = dict(self.decided)
         return s
+
+
+def try_ok_variant(trycall):
+    """'Some' for Option::branch, 'Ok' for Result::branch (decided by the generic argument recorded on the call)"""
+    a = trycall[3][0] if trycall[3] else None
+    # the operand type is not in the value tree; Option is by far the common case in this crate, Result is told apart
+    # by its producer
+    if a is not None and a[0] == 'call' and ('Result' in a[2] or a[2].endswith('::try_lock')):
+        return 'Ok'
+    return 'Some'
 
 
 def lkey(pl):
@@ -290,12 +302,33 @@ def lkey(pl):
     return pl[1] if len(pl) == 2 else (pl[1], pl[2])
 
 
-# crate-local functions that stay atomic events even though they are private (their summaries are rules of their own)
-NO_INLINE_PREFIXES = ('internal::', 'signal::', 'pointer::', 'mutex::', 'backoff::', '<mutex::', '<signal::', '<pointer::',
-                      'future::FutureState::', '<future::')
-NO_INLINE_SUFFIXES = ('::read_local_data', '::drop_local_data', "SendFuture::<'a, T>::new", "ReceiveFuture::<'a, T>::new_ref",
-                      "ReceiveStream::<'a, T>::new_borrowed")
-MAX_INLINE_DEPTH = 2
+# crate-local functions that stay ATOMIC events in their callers' paths: their meaning is pinned by rules of their own
+# (H, G, P, M, F8 ...).  Every other crate-local function (a helper somebody extracts tomorrow, in whatever module) is
+# spliced into the paths of its callers.
+ATOMIC_FUNCS = {
+    'internal::acquire_internal', 'internal::try_acquire_internal', 'internal::ChannelInternal::new',
+    'internal::ChannelInternal::next_recv', 'internal::ChannelInternal::next_send', 'internal::ChannelInternal::push_send',
+    'internal::ChannelInternal::push_recv', 'internal::ChannelInternal::cancel_send_signal',
+    'internal::ChannelInternal::cancel_recv_signal', 'internal::ChannelInternal::send_signal_exists',
+    'internal::ChannelInternal::recv_signal_exists', 'internal::ChannelInternal::terminate_signals',
+    'signal::Signal::new_sync', 'signal::Signal::new_async', 'signal::Signal::new_async_ptr', 'signal::Signal::wait',
+    'signal::Signal::wait_timeout', 'signal::Signal::poll', 'signal::Signal::async_blocking_wait',
+    'signal::Signal::is_terminated', 'signal::Signal::register_waker', 'signal::Signal::set_ptr', 'signal::Signal::will_wake',
+    'signal::Signal::assume_init', 'signal::Signal::load_and_drop', 'signal::Signal::get_terminator', 'signal::Signal::send',
+    'signal::Signal::recv', 'signal::Signal::terminate', 'signal::Signal::wake', 'signal::Signal::send_copy',
+    'signal::SignalTerminator::send', 'signal::SignalTerminator::recv', 'signal::SignalTerminator::terminate',
+    'signal::SignalTerminator::send_copy',
+    'pointer::KanalPtr::new_from', 'pointer::KanalPtr::new_owned', 'pointer::KanalPtr::new_write_address_ptr',
+    'pointer::KanalPtr::new_unchecked', 'pointer::KanalPtr::read', 'pointer::KanalPtr::write', 'pointer::KanalPtr::copy',
+    'pointer::store_as_kanal_ptr',
+    'future::FutureState::is_waiting', 'future::FutureState::is_done', 'future::SendFuture::new', 'future::ReceiveFuture::new_ref',
+    'future::ReceiveStream::new_borrowed', 'future::SendFuture::read_local_data', 'future::SendFuture::drop_local_data',
+    'future::ReceiveFuture::read_local_data', 'future::ReceiveFuture::drop_local_data',
+    'mutex::RawMutexLock::lock_no_inline',
+    'backoff::spin_cond', 'backoff::get_parallelism', 'backoff::sleep', 'backoff::yield_now', 'backoff::yield_now_std',
+    'backoff::spin_wait', 'backoff::spin_hint', 'backoff::random_u7', 'backoff::random_u32', 'backoff::randomize',
+}
+MAX_INLINE_DEPTH = 3
 
 
 def inlinable(body):
@@ -305,8 +338,7 @@ def inlinable(body):
         return False
     if j.get('impl_trait'):
         return False
-    k = body.key
-    if k.startswith(NO_INLINE_PREFIXES) or k.endswith(NO_INLINE_SUFFIXES):
+    if canon(body.key) in ATOMIC_FUNCS:
         return False
     return True
 
@@ -375,6 +407,8 @@ class Evaluator:
             base = pl[1]
             if self.rooted_local(base):
                 bv = self.read_place(st, base, t)
+                if bv[0] == 'downcast' and bv[1][0] == 'agg' and bv[1][2] == bv[2]:
+                    bv = bv[1]  # (Some(x) as Some).0  ->  x
                 if bv[0] == 'agg':
                     fn = bv[4] if len(bv) > 4 else None
                     if fn and pl[2] in fn:
@@ -385,6 +419,9 @@ class Evaluator:
                             return bv[3][i]
                     except ValueError:
                         pass
+                if bv[0] == 'downcast' and bv[2] == 'Continue' and pl[2] == '0' and bv[1][0] == 'call' and bv[1][2] == 'std::ops::Try::branch' and bv[1][3]:
+                    # `x?` on an Option/Result: the Continue payload is the Some/Ok payload of x
+                    return ('field', ('downcast', bv[1][3][0], try_ok_variant(bv[1])), '0')
                 return ('field', bv, pl[2])
             if pl in st.mem:
                 return st.mem[pl]
@@ -628,6 +665,28 @@ class Evaluator:
                     fo = self.operand(st, t['fnop'])
                     args = (fo,) + args
                 callee = self.inline_target(st, fn)
+                clo_args = None
+                if callee is None and fn and name in ('std::ops::FnOnce::call_once', 'std::ops::Fn::call', 'std::ops::FnMut::call_mut') \
+                        and st.depth < MAX_INLINE_DEPTH and len(args) == 2:
+                    # a closure defined in this crate, called with a tuple of arguments ("rust-call" ABI): splice its body
+                    cv = args[0]
+                    if cv[0] in ('ref', 'rawptr') and len(cv) > 2 and cv[2] is not None:
+                        cv = cv[2]
+                    if cv[0] == 'agg' and cv[1] == 'closure' and args[1][0] == 'agg' and args[1][1] == 'tuple':
+                        cb = self.body.facts.bodies.get(cv[2])
+                        cur = st.body or self.body
+                        if cb is not None and cb is not cur and not any(f['body'] is cb for f in st.stack):
+                            callee = cb
+                            clo_args = (args[0],) + tuple(args[1][3])
+                if callee is not None and clo_args is not None:
+                    args = clo_args
+                if name == 'std::ops::FromResidual::from_residual' and fn and fn['args'] and fn['args'][0].startswith('std::option::Option<'):
+                    # `None?` : the residual of an Option is always None
+                    self.assign(st, t['dest'], ('agg', 'std::option::Option', 'None', (), ()), t.get('at'), b)
+                    if t.get('target') is None:
+                        return
+                    b = t['target']
+                    continue
                 if callee is not None and t.get('target') is not None:
                     st.events.append(Event('inline', idx=len(st.events), name=name, args=args, at=t.get('at'), bb=b, fn=fn))
                     st.stack.append({'body': st.body, 'visits': st.visits, 'dest': t['dest'], 'target': t['target'], 'bb': b})
@@ -688,6 +747,20 @@ class Evaluator:
                 else:
                     label_it = True
                 listed = [val for val, _ in targets]
+                # the same (immutable) value was already branched on earlier on this path: stay consistent
+                prev = None
+                try:
+                    prev = st.decided.get(d) if label_it else None
+                except TypeError:
+                    prev = None
+                if prev is not None:
+                    if prev[0] == 'eq':
+                        keep = [c for c in cands if c[0] == prev[1]]
+                        if not keep:
+                            keep = [c for c in cands if c[0] is None]
+                        cands = keep
+                    else:
+                        cands = [c for c in cands if c[0] is None or c[0] not in prev[1]]
                 nexts = []
                 for val, tb in cands:
                     if label_it:
@@ -705,6 +778,17 @@ class Evaluator:
                     s2 = st if i == len(nexts) - 1 else st.clone()
                     todo.append((val, tb, lab, outc, s2))
                 for val, tb, lab, outc, s2 in todo:
+                    if label_it:
+                        try:
+                            if val is not None:
+                                s2.decided[d] = ('eq', val)
+                            else:
+                                old_ = s2.decided.get(d)
+                                ex = frozenset(listed) | (old_[1] if old_ is not None and old_[0] == 'ne' else frozenset())
+                                if old_ is None or old_[0] == 'ne':
+                                    s2.decided[d] = ('ne', ex)
+                        except TypeError:
+                            pass
                     if label_it:
                         s2.events.append(Event('br', idx=len(s2.events), label=lab, outcome=outc, val=d,
                                                at=t.get('at'), bb=b, taken=(val, listed)))
@@ -838,6 +922,16 @@ def classify_bool_expr(d):
         if r:
             return (r[0], not r[1])
         return None
+    if d[0] == 'bin' and d[1] in ('Eq', 'Ne') and (
+            (d[3][0] == 'const' and d[3][1] == 'bool') or (d[2][0] == 'const' and d[2][1] == 'bool')):
+        # x == true / x != false / ... with a boolean constant (typically after a helper was spliced in with a
+        # constant flag argument)
+        cst, other = (d[3], d[2]) if d[3][0] == 'const' and d[3][1] == 'bool' else (d[2], d[3])
+        r = classify_bool_expr(other)
+        if r is None:
+            return None
+        same = (cst[2] == '1') == (d[1] == 'Eq')   # expression is equivalent to `other` iff same
+        return (r[0], r[1] if same else (not r[1]))
     if d[0] == 'bin':
         op, a, b = d[1], d[2], d[3]
         # normalise so that constants are on the right
@@ -1083,6 +1177,9 @@ def classify(d, val, listed):
                 name = rest[0]
             else:
                 name = 'other(' + '|'.join(rest) + ')'
+        if inner[0] == 'call' and inner[2] == 'std::ops::Try::branch':
+            okv = try_ok_variant(inner)
+            name = {'Continue': okv, 'Break': ('None' if okv == 'Some' else 'Err')}.get(name, name)
         return (discr_label(inner), name)
     fcount = ci_field_load(d)
     if fcount is None and d[0] == 'bin' and d[1] in ('Add', 'Sub') and d[3][0] == 'const':
@@ -1114,6 +1211,8 @@ def classify(d, val, listed):
 
 
 def discr_label(v):
+    if v[0] == 'call' and v[2] == 'std::ops::Try::branch' and v[3]:
+        return discr_label(v[3][0])
     if v[0] == 'call':
         short = {
             'internal::ChannelInternal::next_recv': 'next_recv',
